@@ -115,12 +115,22 @@ def run(ctx):
             ws = gen.gen_workspace(root, ctx.rng, depth=ctx.rng.randint(1, 3), venv=(h % 3 == 0))
             materialize(ws)
             db = vh.new_db()
+            where = []
+            if h % 3 == 1:
+                # the editor opened one document (unchanged) before the scan reached it: the scan's visit replaces the
+                # forward records of that file and has to replace the reverse ones too
+                pys = sorted(rel for rel in ws.files if rel.endswith(".py") and os.path.basename(rel).startswith("test_"))
+                if pys:
+                    rel0 = ctx.rng.choice(pys)
+                    vh.call(op="analyze", db=db, path=ws.abs(rel0), text=ws.files[rel0])
+                    where.append("open_before_scan")
+                    ctx.count("open_before_scan")
             r = vh.call(op="scan", db=db, root=root)
             if "panic" in r:
                 raise Inconclusive(f"scan panicked: {r}")
             texts = {ws.abs(rel): t for rel, t in ws.files.items() if rel.endswith(".py")}
             steps = hist.gen_history(ws, ctx.rng, ctx.rng.randint(2, max_steps), parses=lambda t: vh.call(op="parses", text=t)["ok"])
-            where = ["scan"]
+            where.append("scan")
             snap = vh.call(op="snapshot", db=db)
             check_pairs(ctx, snap, texts, where, root, ws.files)
             for k, st in enumerate(steps):
